@@ -64,7 +64,9 @@ BOUNDS = {
              "Derived arrays: masked Array2D (all masks for H*W <= 6, mask family for 3x3, 3x4, 4x3, 2x4, 4x2) and Array1D (lengths 1..5, all masks) in BOTH "
              "storage modes (store_native F/T), fresh and after x + c, x * c, c - x with c symbolic, written on BOTH routes (file and HDU). "
              "Multi-extension files: 3 HDUs written through hdu_for_output, every hdu index 0..2 read back (Array2D, Kernel2D, Mask2D, Array1D; shapes "
-             "2x3, 3x2, 1x3, 3x1). Imaging.output_to_fits -> from_fits: 3x3 data / noise map (> 0), 3x3 PSF with unit sum, all symbolic.",
+             "2x3, 3x2, 1x3, 3x1). Small-magnitude regime: the 2D / 1D round trips again with values 2^-30 (n + 1/3), n a symbolic integer in "
+             "[-1000, 1000] (shapes 2x3, 3x2, 1x3, 3x1, N=3). Imaging: one pre-existing psf / noise-map target among fresh paths with overwrite=False "
+             "must fail and stay untouched. Imaging.output_to_fits -> from_fits: 3x3 data / noise map (> 0), 3x3 PSF with unit sum, all symbolic.",
     "thorough": "as quick, but ALL masks forked for every 2D shape with H*W <= 12 and H,W <= 8 (incl. 3x4, 4x3, 2x5, 5x2, 2x6, 6x2, 1x5..1x8, 5x1..8x1; for "
                 "more than 9 pixels the Mask2D.from_fits options are {None, (H+2,W+2)} x invert), 1D lengths 1..8, Imaging also 3x4 data; derived arrays with all masks for H*W <= 9 and 1D lengths 1..8; file-system histories with three content-shape pairs per array writer and two per mask writer",
 }
@@ -84,6 +86,9 @@ STUBS = [
     "overwritten and all further HDUs are kept, Header.update sets / appends cards, flush / close / leaving the with-block write back)",
     "os.path.exists / os.makedirs / os.remove (and pathlib.Path.exists / is_file / is_dir / mkdir / unlink) inside every autoarray module that imports them (symbolic runs only): in-memory directory/file sets with POSIX "
     "behaviour (exists('') is False, makedirs('') raises FileNotFoundError, makedirs creates all ancestors, remove deletes the file)",
+    "astype(float32 / float16) of an array holding symbolic reals (anywhere in the repository): every entry x becomes r32(x), an uninterpreted "
+    "function with |r32(x) - x| <= 2^-24 |x| (IEEE single-precision relative error, normal range); concrete entries go through numpy's float32. "
+    "In the tiny-magnitude cases the inputs are 2^-30 (n + 1/3), which are never single-precision values, so r32(v) != v is stated as well",
     "type(x) inside geometry_util / mask_1d: a symbolic real counts as a Python float (header values returned by astropy are Python floats)",
 ]
 ASSUMPTIONS = [
